@@ -113,10 +113,15 @@ def run(chk):
             exprs.append(f"rel_err2 {C.cqmat(fr_rows(Xt))} {C.cqmat(fr_rows(pred))}")
             meta.append(("rel", rel * rel, 1e-9, {**case, "what": "relative error"}))
         # ---------------- determinant
-        pd_ = int(rng.integers(m, n + 1))
+        pd_ = m if rng.random() < 0.4 else int(rng.integers(m, n + 1))
         Sd = [int(i) for i in model.ranked_sensors_[:pd_]]
-        if rng.random() < 0.2 and pd_ >= 2:
-            Sd[1] = Sd[0]          # a repeated sensor: exactly singular selection
+        if m >= 2 and rng.random() < 0.35:
+            # exactly rank-deficient selections: a repeated sensor (square case) or too few distinct sensors (tall case)
+            if pd_ == m:
+                Sd[1] = Sd[0]
+            else:
+                Sd = [Sd[i % (m - 1)] for i in range(pd_)]
+            chk.count("det:rank-deficient")
         dv = float(determinant(np.array(Sd), n, B))
         BSq = fr_rows(B[Sd])
         exprs.append(f"optimality {C.cqmat(BSq)}")
